@@ -132,9 +132,13 @@ class Outcome:
 
     # -- finish ---------------------------------------------------------------------------
     def finish(self, level: str = "model_checking", rule: str = "", checker_cmd: str = "") -> int:
-        ev_dir = VERIF / "evidence"
+        # seeded-change runs (tools/matrix.sh, VERIF_REPO=<scratch worktree>) may divert their output so that the
+        # committed evidence of the unchanged tree is not overwritten by a mutant's run
+        out_root = Path(os.environ["VERIF_OUT_DIR"]) if os.environ.get("VERIF_OUT_DIR") and os.environ.get("VERIF_REPO") else VERIF
+        out_root.mkdir(parents=True, exist_ok=True)
+        ev_dir = out_root / "evidence"
         ev_dir.mkdir(exist_ok=True)
-        rp_dir = VERIF / "replays"
+        rp_dir = out_root / "replays"
         rp_dir.mkdir(exist_ok=True)
         for fid, h in sorted(self.known_hits.items()):
             print(f"KNOWN-FINDING: property={self.prop} {fid}: {h['what']} ({h['count']} records, e.g. "
